@@ -4,3 +4,6 @@ import LA.Props.C01
 import LA.Props.C05
 import LA.Props.C08
 import LA.Props.C17
+import LA.Props.C09
+import LA.Props.C09Filters
+import LA.Props.C11
